@@ -135,7 +135,7 @@ func (h *Hist) genTx() *histTx {
 	}{
 		{"amm.join", 10}, {"amm.exit", 8}, {"amm.swapIn", 10}, {"amm.swapOut", 6}, {"amm.swapByDenom", 3},
 		{"ss.bond", 5}, {"ss.unbond", 5},
-		{"cm.commitClaimed", 3}, {"cm.uncommit", 3}, {"cm.vest", 3}, {"cm.cancelVest", 2}, {"cm.claimVesting", 3},
+		{"cm.commitClaimed", 3}, {"cm.uncommit", 3}, {"cm.vest", 3}, {"cm.cancelVest", 2}, {"cm.claimVesting", 3}, {"cm.vestLiquid", 1},
 		{"lp.open", 8}, {"lp.close", 6}, {"lp.closePositions", 4}, {"lp.claim", 1},
 		{"perp.open", 8}, {"perp.close", 6}, {"perp.closePositions", 4},
 		{"mc.claim", 3}, {"mc.externalIncentive", 1},
@@ -308,6 +308,11 @@ func (h *Hist) genTx() *histTx {
 		tx.f = J{"denom": d, "amt": a.String()}
 	case "cm.claimVesting":
 		tx.req.Msgs = []sdk.Msg{&ctypes.MsgClaimVesting{Sender: u.Addr.String()}}
+	case "cm.vestLiquid":
+		// an externally issued token put on its own vesting schedule (deposited into, and later paid back out of, the module)
+		a := h.amt(1_000, 2_000_000_000)
+		tx.req.Msgs = []sdk.Msg{&ctypes.MsgVestLiquid{Creator: u.Addr.String(), Amount: a, Denom: "uatom"}}
+		tx.f = J{"denom": "uatom", "amt": a.String()}
 	case "lp.open":
 		p := h.pool(func(q PoolRef) bool { return q.Perp })
 		a := h.amt(1_000_000, 20_000_000_000)
